@@ -172,6 +172,7 @@ func runC16(c *c16Case) (error, int, map[string]int) {
 
 func TestC16(t *testing.T) {
 	stats.Property = "C16"
+	replayRegressions(t, "C16")
 	stats.Rule = "built with -race. Part A: 2..8 goroutines, each owning 1..3 trees of mixed kinds, re-execute at the same time the histories rapid generated for them (heavy grow/shrink churn through the shared node pool); Part B: one byte-string, numeric or compound tree is built, then 2..8 goroutines run generated read-only query mixes on it. GOMAXPROCS in {1,2,4,16} and Gosched injection points are drawn per case; " +
 		"a race report is a violation and every goroutine's results must equal the sequential ones; non-trivial = at least 2 goroutines were in flight at the same time (shared atomic counter) and, in part A, at least two goroutines released and acquired pooled nodes; distinct by trace hash"
 	wa := os.Getenv("VERIF_C16_WRITEAHEAD")
